@@ -551,9 +551,10 @@ def gen_cases(ctx):
         fs_dec = []
         pos = 0
         for f in fs:
-            if pos + 8 + len(f[2]) <= len(st):
-                fs_dec.append(f)
-                pos += 8 + len(f[2])
+            if pos + 8 + len(f[2]) > len(st):
+                break                      # the first frame that does not fit ends the stream
+            fs_dec.append(f)
+            pos += 8 + len(f[2])
         st = st[:pos]
         n = len(st)
         for i in range(1, n):
